@@ -182,6 +182,7 @@ _add("C19", "Two nodes on one host/IP with different ports, a node replaced unde
 _add("C18", "The order is also (re)configured after construction through the public caches attribute, and 12-call sessions run on one FallbackClient while the caches' contents change.")
 _add("C20", "Clients whose server refuses connections are a further entry point (17 operations in rotation): an illegal key is still MemcacheIllegalInputError, not the connection error.")
 
+_add("C08", "Every other public data method of PooledClient runs in two-thread programs against a read, a failing read and itself, each on the calling thread's own items with the undisturbed result demanded. The pool module's threading global is shadowed by scheduler-aware locks, so a pool that is not given (or ignores) lock_generator is still schedulable, and the PooledClient a HashClient(use_pooling=<truthy>) builds is explored with preemptions through the HashClient.")
 NOT_YET = "check not built yet in this round (runtime-monitoring design in DESIGN.md §2); will be claimed once its monitor exists"
 
 manifest = {
